@@ -8,6 +8,7 @@ import (
 	"fmt"
 	"io"
 	"log/slog"
+	"runtime"
 	"strings"
 	"sync"
 	"sync/atomic"
@@ -516,6 +517,65 @@ func directed(c *core.Ctx, r *core.Rand, i int) {
 	}
 }
 
+// connectStorm: many clients keep connecting while Shutdown is called at a seeded moment, on two
+// processors only, so that freshly accepted connections whose goroutine has not started yet are common.
+func connectStorm(c *core.Ctx, r *core.Rand, i int) {
+	prev := runtime.GOMAXPROCS(2)
+	defer runtime.GOMAXPROCS(prev)
+	base := len(census.Goroutines())
+	w := newWorld()
+	stop := make(chan struct{})
+	var wg sync.WaitGroup
+	var dialed atomic.Int64
+	for g := 0; g < 16; g++ {
+		wg.Add(1)
+		go func(g int) {
+			defer wg.Done()
+			for k := 0; ; k++ {
+				select {
+				case <-stop:
+					return
+				default:
+				}
+				cl, err := w.l.Dial()
+				if err != nil {
+					return // listener closed
+				}
+				dialed.Add(1)
+				if k%2 == 0 {
+					cl.Write(request(fmt.Sprintf("storm%d-g%d-%d-fast", i, g, k)))
+					script.ReadFrame(cl)
+				}
+				cl.Close()
+			}
+		}(g)
+	}
+	// let the storm build up for a seeded number of accepted connections, then shut down
+	target := int64(20 + r.Intn(200))
+	for k := 0; k < 40000 && dialed.Load() < target; k++ {
+		time.Sleep(50 * time.Microsecond)
+	}
+	w.log("shutdownCalled", "", "")
+	shut := make(chan error, 1)
+	go func() { err := w.srv.Shutdown(); w.log("shutdownReturned", "", ""); shut <- err }()
+	select {
+	case <-shut:
+	case <-time.After(30 * time.Second):
+		close(stop)
+		c.Violation("C16:shutdown-does-not-return", "Shutdown has not returned after 30 s under a connect storm", nil)
+		return
+	}
+	close(stop)
+	serveErr := <-w.done
+	wg.Wait()
+	time.Sleep(20 * time.Millisecond) // stragglers, if any, get the chance to log
+	left := census.Settle(base, 10*time.Second)
+	c.Count("connect_storms", 1)
+	c.Count("storm_connections", dialed.Load())
+	c.Distinct(core.Hash64("storm", fmt.Sprint(target)))
+	check(c, w, nil, serveErr, left, fmt.Sprintf("connect storm %d (%d connections before Shutdown)", i, target))
+}
+
 var _ = io.EOF
 
 func Spec() *core.Spec {
@@ -526,9 +586,9 @@ func Spec() *core.Spec {
 		Race:  true,
 		Rule: "scenarios of 1-16 (thorough: up to 128) connections put into seeded states {idle, idle after a request, partial request sent, handler gated and released after Shutdown was called, handler waiting for its context, response blocked on a non-reading client, connect hook failing, request racing with Shutdown} plus connections dialling while Shutdown runs; " +
 			"an event log with a global logical clock (connect/terminate hooks with a connection id installed in the context, handler start/end/cancel, shutdown called/returned, Serve returned) is checked offline; " +
-			"grace-period scenarios take 3 s and are judged with a one-sided comparison (a cancellation must not come EARLIER than 2.9 s after Shutdown was called); directed schedule through the verif hook between Accept and wg.Add. distinct = distinct state combinations",
+			"grace-period scenarios take 3 s and are judged with a one-sided comparison (a cancellation must not come EARLIER than 2.9 s after Shutdown was called); directed schedule through the verif hook between Accept and wg.Add; connect storms (16 clients connecting in a loop on 2 processors while Shutdown is called). distinct = distinct state combinations",
 		Assumptions: []string{"the documented grace period is 3 s; load can only make a cancellation later, so the one-sided comparison cannot be falsified by a slow machine", "goroutines gone = none with a library frame within 10 s after Shutdown returned"},
-		Required:    []string{"scenarios", "events", "paired_hooks", "failed_connect_hooks", "in_flight_answered", "in_flight_cancelled", "census_checks", "directed.accepted-not-yet-counted"},
+		Required:    []string{"scenarios", "events", "paired_hooks", "failed_connect_hooks", "in_flight_answered", "in_flight_cancelled", "census_checks", "directed.accepted-not-yet-counted", "connect_storms"},
 		Shards:      func(string) int { return 8 },
 		Families: []core.Family{
 			{Name: "scenarios", N: func(tier string) int {
@@ -549,6 +609,12 @@ func Spec() *core.Spec {
 				}
 				return 16
 			}, Run: directed, Timeout: 90 * time.Second},
+			{Name: "connect-storm", N: func(tier string) int {
+				if tier == core.Thorough {
+					return 2000
+				}
+				return 80
+			}, Run: connectStorm, Timeout: 90 * time.Second},
 		},
 	}
 }
